@@ -395,3 +395,29 @@ func TestProp_Cursor(t *testing.T) {
 		ev.Case("cursor", s.kind+"|"+string(d)+"|"+strings.Join(hist, ","), nact >= 8 && sawRewShift && sawRuneEnd && len(d) >= 2, s.kind)
 	})
 }
+
+// ---------- library functions that build an Input of their own over the caller's bytes
+
+func TestProp_InternalInputs(t *testing.T) {
+	ev.Describe("internal-inputs", "parse.Position and parse.NewError (which build an Input themselves and drop it) on a reader that exposes the caller's bytes (buffer.Reader over a sub-slice of a larger buffer, bytes.Buffer): fragment data, every offset; oracle: the caller's whole buffer is unchanged afterwards (the borrowed terminator byte is put back: the caller has no handle to call Restore on); non-trivial = the sub-slice has spare capacity with a non-zero byte behind it")
+	ev.Check(t, 4000, func(t *rapid.T) {
+		data := genData(t)
+		tail := rapid.SampledFrom([]string{"", "x", "}\n;", "\xAA\xAA"}).Draw(t, "tail")
+		whole := append(append(make([]byte, 0, len(data)+len(tail)), data...), tail...)
+		snap := append([]byte(nil), whole...)
+		in := whole[:len(data)]
+		off := rapid.IntRange(0, len(data)).Draw(t, "offset")
+		switch rapid.IntRange(0, 2).Draw(t, "fn") {
+		case 0:
+			parse.Position(buffer.NewReader(in), off)
+		case 1:
+			_ = parse.NewError(buffer.NewReader(in), off, "message").Error()
+		case 2:
+			parse.Position(bytes.NewBuffer(in), off)
+		}
+		if !bytes.Equal(whole, snap) {
+			t.Fatalf("the caller's buffer %q reads %q after Position/NewError on its first %d bytes", snap, whole, len(data))
+		}
+		ev.Case("internal-inputs", fmt.Sprintf("%q+%q@%d", data, tail, off), len(tail) > 0)
+	})
+}
